@@ -595,7 +595,8 @@ class Engine(Interp):
         ctx = Ctx(self, old, old)
         if c.requires:
             for nm, cl in c.requires(ctx):
-                self.oblige(f"pre:{c.qual}@{site}:{nm}", 'pre', cl, node)
+                if not nm.startswith('assume:'):
+                    self.oblige(f"pre:{c.qual}@{site}:{nm}", 'pre', cl, node)
                 self.st.assume(hyp_of(cl))
         # exceptional behaviours
         for exc, r in c.raises.items():
